@@ -7,7 +7,8 @@ From Coq Require Import QArith Qminmax Qabs Lqa Arith Bool List Lia.
 From SharkV Require Import C08Model C08Defs C08ProofsBox C16Model.
 Import ListNotations. Open Scope Q_scope.
 
-Definition qmone : Q := -(1).
+Definition qmone : Q := -(1).                         (* initial maxGain of the solver before /repo ab716aec *)
+Definition qlowest : Q := - inject_Z (2 ^ 1024).       (* -DBL_MAX (a bound below it) *)
 Definition qtiny : Q := 1 # 100000000000000.
 
 Lemma qtiny_pos : 0 < qtiny. Proof. reflexivity. Qed.
@@ -26,15 +27,40 @@ Proof.
     end.
 Qed.
 
-Lemma tri_best_in : forall ai aj gi gj Qii Qij Qjj M, 0 <= M ->
-  intri M (tri_best qops qmone ai aj gi gj Qii Qij Qjj M).
+Lemma tri_feasible_true : forall ai aj M,
+  tri_feasible qops ai aj M = true <-> intri M (ai, aj).
 Proof.
-  intros ai aj gi gj Qii Qij Qjj M HM. unfold tri_best.
+  intros. unfold tri_feasible, intri. cbn [o_ltb o_zero o_add qops fst snd].
+  rewrite !andb_true_iff, !negb_true_iff, !qltb_false. tauto.
+Qed.
+
+(* the start value of maxGain *)
+Definition tri_mg (ai aj M : Q) : Q := if tri_feasible qops ai aj M then 0 else qlowest.
+
+(* The repaired solver keeps the current point when no candidate beats maxGain.  For a feasible start
+   that point is in the triangle; for an infeasible start maxGain = -DBL_MAX, and the point is only
+   left if some candidate has a gain above that (always the case for finite doubles; in exact
+   arithmetic it is a hypothesis). *)
+Definition tri_start_ok (ai aj gi gj Qii Qij Qjj M : Q) : Prop :=
+  intri M (ai, aj) \/
+  exists c, In c (tri_edges qops ai aj gi gj Qii Qij Qjj M) /\ qlowest < G2 ai aj gi gj Qii Qij Qjj c.
+
+Lemma tri_best_in : forall ai aj gi gj Qii Qij Qjj M, 0 <= M ->
+  tri_start_ok ai aj gi gj Qii Qij Qjj M ->
+  intri M (tri_best qops qlowest ai aj gi gj Qii Qij Qjj M).
+Proof.
+  intros ai aj gi gj Qii Qij Qjj M HM OK. unfold tri_best.
   pose proof (tri_edges_in ai aj gi gj Qii Qij Qjj M HM) as HB.
   set (es := tri_edges qops ai aj gi gj Qii Qij Qjj M) in *.
-  destruct (best_edge_in ai aj gi gj Qii Qij Qjj es qmone (hd (ai, aj) es)) as [E|E].
-  - rewrite E. apply HB. unfold es, tri_edges. cbn [hd]. left; reflexivity.
-  - apply HB; exact E.
+  cbn [o_zero qops]. fold (tri_mg ai aj M).
+  pose proof (best_edge_char ai aj gi gj Qii Qij Qjj es (tri_mg ai aj M) (ai, aj)) as H.
+  cbv zeta in H. destruct H as [(I & _ & _)|(E & A)]; [apply HB; exact I|].
+  rewrite E. unfold tri_mg in A.
+  destruct (tri_feasible qops ai aj M) eqn:F.
+  - apply tri_feasible_true; exact F.
+  - destruct OK as [OK|(c & Ic & Lc)].
+    + apply tri_feasible_true in OK. congruence.
+    + specialize (A c Ic). exfalso. lra.
 Qed.
 
 Lemma tri_snap_in : forall M c, 0 <= M -> intri M c -> intri M (tri_snap qops M c).
@@ -52,19 +78,36 @@ Proof.
       qcase (M - y) eps; cbn [fst snd]; repeat split; lra.
 Qed.
 
-(* result of solveQuadratic2DTriangle lies in the triangle, for ALL inputs with 0 <= maxSum *)
+(* result of solveQuadratic2DTriangle lies in the triangle: for every feasible start and all other
+   inputs whatsoever (gradient, matrix - also indefinite), and for every infeasible start that is
+   left at all (see tri_start_ok) *)
 Theorem solve_tri_in_triangle : forall ai aj gi gj Qii Qij Qjj M, 0 <= M ->
-  intri M (solve_tri qops qmone ai aj gi gj Qii Qij Qjj M).
+  tri_start_ok ai aj gi gj Qii Qij Qjj M ->
+  intri M (solve_tri qops qlowest ai aj gi gj Qii Qij Qjj M).
 Proof.
-  intros ai aj gi gj Qii Qij Qjj M HM. unfold solve_tri, tri_free. cbn [fst snd].
+  intros ai aj gi gj Qii Qij Qjj M HM OK. unfold solve_tri, tri_free. cbn [fst snd].
   match goal with |- context [if ?b then _ else _] => destruct b eqn:B end.
   - cbn [o_ltb o_thr o_zero o_add o_sub o_mul o_div qops] in B.
     repeat match goal with X : _ && _ = true |- _ =>
       apply andb_true_iff in X; let X' := fresh "B" in destruct X as [X X'] end.
     repeat match goal with X : qltb _ _ = true |- _ => apply qltb_true in X end.
     unfold intri. cbn [fst snd o_add o_sub o_mul o_div qops]. repeat split; lra.
-  - apply tri_snap_in; [exact HM|]. apply tri_best_in; exact HM.
+  - apply tri_snap_in; [exact HM|]. apply tri_best_in; assumption.
 Qed.
+
+Corollary solve_tri_in_triangle_feasible : forall ai aj gi gj Qii Qij Qjj M,
+  0 <= ai -> 0 <= aj -> ai + aj <= M ->
+  intri M (solve_tri qops qlowest ai aj gi gj Qii Qij Qjj M).
+Proof.
+  intros. apply solve_tri_in_triangle; [lra|]. left. unfold intri. cbn [fst snd]. repeat split; assumption.
+Qed.
+
+(* an infeasible start whose candidates all have gains <= -DBL_MAX is NOT moved: the literal model
+   returns the infeasible point (cannot happen with finite doubles) *)
+Example tri_infeasible_start_kept :
+  solve_tri qops qlowest (-(1)) 0 (- inject_Z (2 ^ 1030)) 0 0 0 0 1 = (0, 0) /\
+  tri_best qops qlowest (-(1)) 0 (- inject_Z (2 ^ 1030)) 0 0 0 0 1 = (-(1), 0).
+Proof. split; vm_compute; reflexivity. Qed.
 
 (* ------------------------------------------------------------ 1-D optimality *)
 Lemma prod_nn : forall x y : Q, (0 <= x /\ 0 <= y) \/ (x <= 0 /\ y <= 0) -> 0 <= x * y.
@@ -169,41 +212,47 @@ Proof.
     lra.
 Qed.
 
-(* for(k) if(gain > maxGain) with maxGain = -1 *)
+(* for(k) if(gain > maxGain) with maxGain = feasible ? 0 : -DBL_MAX, best = current point *)
 Lemma tri_best_char :
-  let r := tri_best qops qmone ai aj gi gj Qii Qij Qjj M in
-  (In r es /\ qmone < G r /\ forall c, In c es -> G c <= G r) \/
-  (r = hd (ai, aj) es /\ forall c, In c es -> G c <= qmone).
+  let r := tri_best qops qlowest ai aj gi gj Qii Qij Qjj M in
+  (In r es /\ tri_mg ai aj M < G r /\ forall c, In c es -> G c <= G r) \/
+  (r = (ai, aj) /\ forall c, In c es -> G c <= tri_mg ai aj M).
 Proof.
-  cbv zeta. unfold tri_best. fold es.
-  pose proof (best_edge_char ai aj gi gj Qii Qij Qjj es qmone (hd (ai, aj) es)) as H.
+  cbv zeta. unfold tri_best. fold es. cbn [o_zero qops]. fold (tri_mg ai aj M).
+  pose proof (best_edge_char ai aj gi gj Qii Qij Qjj es (tri_mg ai aj M) (ai, aj)) as H.
   cbv zeta in H. exact H.
 Qed.
 
-(* the candidate chosen before snapping is at least as good as every boundary point whose gain
-   exceeds the initial maxGain = -1 *)
-Lemma tri_best_ge_boundary : forall y, onb y -> qmone < G y ->
-  G y <= G (tri_best qops qmone ai aj gi gj Qii Qij Qjj M).
+(* feasible start: the point chosen in the edge branch is at least as good as EVERY boundary point
+   of the triangle and as the current point *)
+Lemma tri_best_ge_boundary : intri M (ai, aj) ->
+  let r := tri_best qops qlowest ai aj gi gj Qii Qij Qjj M in
+  0 <= G r /\ forall y, onb y -> G y <= G r.
 Proof.
-  intros y Hy Hg. destruct (tri_candidates_dominate_boundary y Hy) as (c & Ic & Lc).
-  destruct tri_best_char as [(I & P & A)|(E & A)].
-  - specialize (A c Ic). lra.
-  - specialize (A c Ic). exfalso. lra.
+  intros F r.
+  assert (MG : tri_mg ai aj M = 0).
+  { unfold tri_mg. apply tri_feasible_true in F. rewrite F. reflexivity. }
+  pose proof G_current as Z.
+  destruct tri_best_char as [(I & P & A)|(E & A)]; fold r in I, P, A || fold r in E, A; rewrite MG in *.
+  - split; [lra|]. intros y Hy.
+    destruct (tri_candidates_dominate_boundary y Hy) as (c & Ic & Lc). specialize (A c Ic). lra.
+  - rewrite E. split; [lra|]. intros y Hy.
+    destruct (tri_candidates_dominate_boundary y Hy) as (c & Ic & Lc). specialize (A c Ic). lra.
 Qed.
 
 End TriGain.
 
-(* free2d-like condition of the triangle solver *)
+(* free2d-like condition of the triangle solver (relative determinant test since ab716aec) *)
 Definition tri_is_free (ai aj gi gj Qii Qij Qjj M : Q) : Prop :=
   fst (tri_free qops ai aj gi gj Qii Qij Qjj M) = true.
 
 (* the point chosen by solveQuadratic2DTriangle before the snapping *)
 Definition tri_unsnapped (ai aj gi gj Qii Qij Qjj M : Q) : Q * Q :=
   let f := tri_free qops ai aj gi gj Qii Qij Qjj M in
-  if fst f then snd f else tri_best qops qmone ai aj gi gj Qii Qij Qjj M.
+  if fst f then snd f else tri_best qops qlowest ai aj gi gj Qii Qij Qjj M.
 
 Lemma solve_tri_unsnapped : forall ai aj gi gj Qii Qij Qjj M,
-  solve_tri qops qmone ai aj gi gj Qii Qij Qjj M =
+  solve_tri qops qlowest ai aj gi gj Qii Qij Qjj M =
   if fst (tri_free qops ai aj gi gj Qii Qij Qjj M) then tri_unsnapped ai aj gi gj Qii Qij Qjj M
   else tri_snap qops M (tri_unsnapped ai aj gi gj Qii Qij Qjj M).
 Proof.
@@ -211,67 +260,97 @@ Proof.
   destruct (fst (tri_free qops ai aj gi gj Qii Qij Qjj M)); reflexivity.
 Qed.
 
-(* The triangle step (before snapping) does not lose objective when
-     - the unconstrained optimum is returned (needs 0 <= Qii besides det > 1e-12), or
-     - the three edge curvatures Qii, Qjj, Qii+Qjj-2Qij are non-negative and some
-       boundary point of the triangle has gain >= 0 - in particular when the current point itself
-       lies on the boundary.
-   FULL STATEMENT (not proved): for every current point in the triangle and positive semidefinite Q
-   with det > 1e-12 or det = 0 and the same curvature conditions the gain is >= 0 (needs: a concave
-   quadratic whose maximiser is not strictly inside attains its maximum over the triangle on the
-   boundary).  Without the determinant condition it is FALSE: tri_gain_refuted. *)
-Theorem tri_gain_nonneg_partial : forall ai aj gi gj Qii Qij Qjj M,
-  let G := G2 ai aj gi gj Qii Qij Qjj in
-  let r := tri_unsnapped ai aj gi gj Qii Qij Qjj M in
-  0 <= M ->
-  (tri_is_free ai aj gi gj Qii Qij Qjj M -> 0 <= Qii) ->
-  (tri_is_free ai aj gi gj Qii Qij Qjj M \/
-   (0 <= Qjj /\ 0 <= Qii /\ 0 <= Qii + Qjj - 2 * Qij /\
-    (onb M (ai, aj) \/ exists y, onb M y /\ 0 <= G y))) ->
-  0 <= G r.
+(* FULL statement (holds for the repaired code, /repo ab716aec): for every current point of the
+   triangle, every gradient and every 2x2 block with non-negative diagonal (in particular every
+   positive semi-definite block; NO condition on the determinant or on Qij) the point chosen by
+   solveQuadratic2DTriangle before its final snapping does not decrease the objective.  Before the
+   repair this was FALSE (old_tri_gain_refuted).  The snapping afterwards moves each coordinate by at
+   most 1e-12*maxSum (tri_snap_close); it can change the objective by that order and is not covered. *)
+Theorem tri_gain_nonneg : forall ai aj gi gj Qii Qij Qjj M,
+  0 <= ai -> 0 <= aj -> ai + aj <= M -> 0 <= Qii -> 0 <= Qjj ->
+  0 <= G2 ai aj gi gj Qii Qij Qjj (tri_unsnapped ai aj gi gj Qii Qij Qjj M).
 Proof.
-  intros ai aj gi gj Qii Qij Qjj M G r HM HQ HD. unfold r, tri_unsnapped.
+  intros ai aj gi gj Qii Qij Qjj M Hi Hj HS HQi HQj. pose proof qthr_pos as TP.
+  unfold tri_unsnapped.
   destruct (fst (tri_free qops ai aj gi gj Qii Qij Qjj M)) eqn:F.
-  - (* free optimum: same formula as the box solver *)
-    assert (Q0 : 0 <= Qii) by (apply HQ; exact F).
-    clear HQ HD.
-    unfold tri_free in *. cbn [fst snd] in *.
+  - unfold tri_free in *. cbn [fst snd] in *.
     cbn [o_ltb o_thr o_zero o_add o_sub o_mul o_div qops] in *.
     apply andb_true_iff in F. destruct F as [F1 _]. apply qltb_true in F1.
-    pose proof (solve_2d_free_gain_nonneg gi gj Qii Qij Qjj Q0) as P. cbv zeta in P.
-    specialize (P F1). unfold G, G2. cbn [fst snd].
+    assert (Dp : 0 < Qii * Qjj - Qij * Qij).
+    { assert (0 <= qthr * Qii * Qjj).
+      { rewrite <- Qmult_assoc. apply Qmult_le_0_compat; [lra|]. apply Qmult_le_0_compat; assumption. }
+      lra. }
+    pose proof (free_gain_nonneg_pos gi gj Qii Qij Qjj HQi) as P. cbv zeta in P. specialize (P Dp).
+    unfold G2. cbn [fst snd].
     rewrite (gain2_compat gi gj Qii Qij Qjj _ ((Qjj * gi - Qij * gj) / (Qii * Qjj - Qij * Qij))
                           _ ((Qii * gj - Qij * gi) / (Qii * Qjj - Qij * Qij))); [exact P| |]; ring.
-  - destruct HD as [F'|(Hjj & Hii & HDD & HB)]; [unfold tri_is_free in F'; congruence|].
-    assert (T : forall y, onb M y -> 0 <= G y -> 0 <= G (tri_best qops qmone ai aj gi gj Qii Qij Qjj M)).
-    { intros y Hy Hg.
-      pose proof (tri_best_ge_boundary ai aj gi gj Qii Qij Qjj M HM Hjj Hii HDD y Hy) as X.
-      fold G in X. assert (qmone < G y) by (unfold qmone; lra). specialize (X H). lra. }
-    destruct HB as [HB|(y & Hy & Hg)].
-    + apply (T (ai, aj) HB). pose proof (G_current ai aj gi gj Qii Qij Qjj) as Z. fold G in Z. lra.
-    + exact (T y Hy Hg).
+  - assert (FE : tri_mg ai aj M = 0).
+    { unfold tri_mg. rewrite (proj2 (tri_feasible_true ai aj M)); [reflexivity|].
+      unfold intri. cbn [fst snd]. repeat split; assumption. }
+    pose proof (tri_best_char ai aj gi gj Qii Qij Qjj M) as H. cbv zeta in H. rewrite FE in H.
+    destruct H as [(_ & P & _)|(E & _)]; [lra|].
+    rewrite E. pose proof (G_current ai aj gi gj Qii Qij Qjj) as Z. lra.
 Qed.
 
-(* hypotheses are satisfiable: an interior free optimum, and a current point on the edge ai = 0 *)
-Example tri_partial_free_sat : tri_is_free (1#1) (1#1) 1 1 1 0 1 10 /\ 0 <= 1.
-Proof. split; vm_compute; [reflexivity|discriminate]. Qed.
-Example tri_partial_boundary_sat : onb 10 (0, 1) /\ 0 <= 1.
-Proof. split; [left; cbn [fst snd]; repeat split; try reflexivity; vm_compute; discriminate | vm_compute; discriminate]. Qed.
+(* in the edge branch the chosen point is moreover at least as good as every point of the boundary
+   of the triangle, when the three edge curvatures are non-negative (positive semi-definite block) *)
+Theorem tri_edges_best : forall ai aj gi gj Qii Qij Qjj M,
+  0 <= ai -> 0 <= aj -> ai + aj <= M -> 0 <= Qii -> 0 <= Qjj -> 0 <= Qii + Qjj - 2 * Qij ->
+  ~ tri_is_free ai aj gi gj Qii Qij Qjj M ->
+  forall y, onb M y ->
+  G2 ai aj gi gj Qii Qij Qjj y <= G2 ai aj gi gj Qii Qij Qjj (tri_unsnapped ai aj gi gj Qii Qij Qjj M).
+Proof.
+  intros ai aj gi gj Qii Qij Qjj M Hi Hj HS HQi HQj HD NF y Hy.
+  unfold tri_unsnapped. unfold tri_is_free in NF.
+  destruct (fst (tri_free qops ai aj gi gj Qii Qij Qjj M)); [exfalso; apply NF; reflexivity|].
+  assert (HM : 0 <= M) by lra.
+  assert (F : intri M (ai, aj)) by (unfold intri; cbn [fst snd]; repeat split; assumption).
+  pose proof (tri_best_ge_boundary ai aj gi gj Qii Qij Qjj M HM HQj HQi HD F) as H. cbv zeta in H.
+  destruct H as [_ H]. apply H. exact Hy.
+Qed.
 
-(* Counterexample to unconditional monotonicity (finding F3 seen through the triangle solver):
-   Q positive definite with determinant exactly 1e-12 (not > 1e-12), current point (1,1) strictly
-   inside the triangle with maxSum = 10, unconstrained optimum (2,2) strictly inside as well.  The
-   free branch is skipped, all three edge candidates have negative gain (> -1), and the code moves
-   to the least bad one. *)
-Theorem tri_gain_refuted : exists ai aj gi gj Qii Qij Qjj M,
+(* the hypotheses are satisfiable, in both branches *)
+Example tri_free_sat : tri_is_free (1#1) (1#1) 1 1 1 0 1 10 /\ 0 <= 1.
+Proof. split; vm_compute; [reflexivity|discriminate]. Qed.
+Example tri_edge_sat : ~ tri_is_free 0 1 1 1 1 0 1 (3#2) /\ onb (3#2) (0, 1).
+Proof.
+  split; [vm_compute; discriminate|].
+  left; cbn [fst snd]; repeat split; try reflexivity; vm_compute; discriminate.
+Qed.
+
+(* ---- regression for the defect repaired by /repo ab716aec ---- *)
+(* the triangle solver as it was: absolute determinant test, maxGain = -1, best = solution[0] *)
+Definition old_tri_free (ai aj gi gj Qii Qij Qjj M : Q) : bool * (Q * Q) :=
+  let det := Qii * Qjj - Qij * Qij in
+  let oi := ai + (Qjj * gi - Qij * gj) / det in
+  let oj := aj + (Qii * gj - Qij * gi) / det in
+  (qltb qthr det && (qltb 0 oi && qltb 0 oj && qltb (oi + oj) M), (oi, oj)).
+Definition old_solve_tri (ai aj gi gj Qii Qij Qjj M : Q) : Q * Q :=
+  let f := old_tri_free ai aj gi gj Qii Qij Qjj M in
+  if fst f then snd f
+  else let es := tri_edges qops ai aj gi gj Qii Qij Qjj M in
+       tri_snap qops M (best_edge qops ai aj gi gj Qii Qij Qjj es qmone (hd (ai, aj) es)).
+
+(* Q positive definite with determinant exactly 1e-12, current point (1,1) strictly inside the
+   triangle with maxSum = 10, unconstrained optimum (2,2) strictly inside as well: the old code
+   skipped the free branch, all three edge candidates have negative gain (> -1) and it moved to the
+   least bad one. *)
+Theorem old_tri_gain_refuted : exists ai aj gi gj Qii Qij Qjj M,
   0 < Qii /\ 0 < Qjj /\ 0 < Qii * Qjj - Qij * Qij /\ Qii * Qjj - Qij * Qij <= qthr /\
   0 < ai /\ 0 < aj /\ ai + aj < M /\
-  (let r := solve_tri qops qmone ai aj gi gj Qii Qij Qjj M in
+  (let r := old_solve_tri ai aj gi gj Qii Qij Qjj M in
    G2 ai aj gi gj Qii Qij Qjj r < 0).
 Proof.
   exists 1, 1, (1 # 1000000), (1 # 1000000), (1 # 1000000), 0, (1 # 1000000), 10.
   repeat split; qdec.
 Qed.
+
+(* the repaired code takes the interior optimum on the same input; the gain is strictly positive *)
+Example tri_witness_repaired :
+  let r := solve_tri qops qlowest 1 1 (1 # 1000000) (1 # 1000000) (1 # 1000000) 0 (1 # 1000000) 10 in
+  fst r == 2 /\ snd r == 2 /\
+  0 < G2 1 1 (1 # 1000000) (1 # 1000000) (1 # 1000000) 0 (1 # 1000000) r.
+Proof. repeat split; qdec. Qed.
 
 (* ------------------------------------------------------------ snapping moves little *)
 Lemma tri_snap_close : forall M c, 0 <= M -> intri M c ->
